@@ -500,13 +500,21 @@ func vRacePair(disp *cmdDispatcher, c1, c2 *clientState, a, b int, am, bm bool) 
 					}
 					continue
 				}
+				if vSessionCommands[i][0] == "SELECT" {
+					// every database is created once: go through all of them
+					vCmd(c, "SELECT", strconv.Itoa(k%15+1))
+					continue
+				}
 				vSessionRun(c, i)
 				if vSessionCommands[i][0] == "MULTI" {
 					vCmd(c, "DISCARD")
 				}
-			} else {
+			} else if i == n {
 				x := vNewClientOn(disp)
 				x.unregister()
+			} else {
+				// the periodic saver
+				disp.dss.save(vLane)
 			}
 		}
 	}
